@@ -138,6 +138,7 @@ def tie(ctx):
 def check(ctx):
     tie(ctx)
     oracle(ctx)
+    options_probe(ctx)
 
 
 # ---------------------------------------------------------------- oracle
@@ -188,7 +189,7 @@ def oracle(ctx):
         f, exact, init, unused_idx = fams[name]
         method = rng.choice(["rk4", "rk38", "rk23", "rk45", "rk45", "euler"])
         direction = rng.choice([1, -1])
-        kind = rng.choice(["pure", "pure", "EditableModule", "nn.Module", "tuple-state"])
+        kind = rng.choice(["pure", "pure", "EditableModule", "nn.Module", "tuple-state", "tuple-state+EditableModule"])
         second = rng.random() < 0.5
         bck = rng.choice([None, None, "rk4", "rk45"])
         req = [True, True, True, rng.random() < 0.6]          # y0, p1, p2, ts
@@ -251,6 +252,19 @@ def oracle(ctx):
                 out = solve_ivp(net.forward, ts, y0, params=(p1,), **kw)
                 run_impl.extra = net.p2
                 return out
+            if kind == "tuple-state+EditableModule":
+                # tuple state AND tensors held by the function's object (seeded defect C08/3)
+                class EMT(xt.EditableModule):
+                    def __init__(self):
+                        self.p1, self.p2 = p1, p2
+
+                    def rhs(self, t, ys):
+                        return (f(t, ys[0], self.p1, self.p2), 2 * f(t, ys[0], self.p1, self.p2))
+
+                    def getparamnames(self, methodname, prefix=""):
+                        return [prefix + "p1", prefix + "p2"]
+                res = solve_ivp(EMT().rhs, ts, (y0, 2 * y0), **kw)
+                return 0.5 * (res[0] + res[1] / 2)
             # tuple state: (y, 2y) evolves with (f(y), 2 f(y))
             res = solve_ivp(lambda t, ys, a, b: (f(t, ys[0], a, b), 2 * f(t, ys[0], a, b)), ts, (y0, 2 * y0), params=(p1, p2), **kw)
             if not isinstance(res, (tuple, list)) or len(res) != 2:
@@ -300,6 +314,33 @@ def oracle(ctx):
             gu = raw[pos]
             if gu is not None and float(gu.detach().abs().max()) != 0.0:
                 ctx.fail("oracle", "ivpgrad:unused-parameter-nonzero", info, gu.tolist(), "None or zero")
+
+
+def options_probe(ctx):
+    """'backward options different from the forward ones': the step solver and the tolerances given in bck_options are the
+    ones the adjoint integration uses; the forward ones are used for the forward pass only (seeded defects C08/2, C18/1)"""
+    from xitorch.integrate import solve_ivp
+    from xitorch._impls.integrate.ivp.explicit_rk import rk4_ivp
+    calls = {"fwd": [], "bck": []}
+
+    def mk(tag):
+        def solver(pfcn, ts, y0, params, **config):
+            calls[tag].append(dict(config))
+            return rk4_ivp(pfcn, ts, y0, params)
+        return solver
+    a = torch.tensor(0.7, dtype=DT, requires_grad=True)
+    ts = torch.linspace(0, 1, 5, dtype=DT)
+    yt = solve_ivp(lambda t, y, a: -a * y, ts, torch.ones(2, dtype=DT), params=(a,), method=mk("fwd"), myopt=1,
+                   bck_options={"method": mk("bck"), "myopt": 2})
+    nf = len(calls["fwd"])
+    torch.autograd.grad(yt.sum(), a)
+    ctx.count(("bck-options",), nontrivial=True)
+    obs = {"forward_solver_calls": len(calls["fwd"]), "backward_solver_calls": len(calls["bck"]),
+           "options_seen_by_forward": calls["fwd"][:1], "options_seen_by_backward": calls["bck"][:1]}
+    if nf != 1 or len(calls["fwd"]) != 1 or len(calls["bck"]) != len(ts) - 1 or calls["fwd"][0].get("myopt") != 1 \
+            or any(c.get("myopt") != 2 for c in calls["bck"]):
+        ctx.fail("oracle", "ivpgrad:backward-options-ignored", {"bck_options": "{'method': <callable>, 'myopt': 2}", "fwd_options": "{'myopt': 1}"},
+                 obs, "forward solver once with myopt=1; backward solver once per segment with myopt=2")
 
 
 def search(ctx):
